@@ -207,6 +207,10 @@ def corpus():
     out.append(mk_case(base_T(C="0", OW=1), names, ["o", "o", "o"], 0, 0, [],
                        ["rd 0 0", "rd 1 0", "ro 2", "set 3", "ud 0", "set 4", "rd 0 1", "set 5"]))
     out.append(mk_case(base_T(C="2", OW=1), names, ["o", "o"], 0, 0, [], ["ra 0 0", "ra 1 0", "set 3", "ua 1", "set 4"]))
+    # `del` when the default (overridden by value in a subclass and mapped by the validator) is a VETOING object: nobody
+    # is told, and the exactly-once clause does not apply (seed 13 thorough, was an oracle gap)
+    out.append('a2|K=T C=2 O=0 Q=0 P=- V=T,=,5,=,=,T VK=- D=2 Z=s D2=2 TT=tab|names=Uninitialized,Undefined,None,list_a,list_b,veto eq=ynnnnn/nynnnn/nnynnn/nnnyyn/nnnyyn/nnnnny ne=nyyyyy/ynyyyy/yynyyy/yyynny/yyynny/yyyyyn veto=5|H=e9,e11,o,e14 RL=0 RO=0 S=a0,c1,f2 DH=1|ctor 3;del')
+    out.append('a2|K=T C=2 O=0 Q=0 P=- V=T,=,5,=,=,T VK=- D=2 Z=s D2=2 TT=tab|names=Uninitialized,Undefined,None,list_a,list_b,veto eq=ynnnnn/nynnnn/nnynnn/nnnyyn/nnnyyn/nnnnny ne=nyyyyy/ynyyyy/yynyyy/yyynny/yyynny/yyyyyn veto=5|H=e9,e11,o,e14 RL=0 RO=0 S=a0,c1,f2 DH=1|ctor 3;pro 3;del')
     # handlers of arity 1..4 as bound methods; the owner of one dies between changes
     out.append(mk_case(base_T(C="0", OW=1, AR="1.2.3.4"), names, ["o"] * 4, 0, 0, [],
                        ["rd 0 0", "rd 1 0", "rd 2 0", "rd 3 0", "set 3", "kd 1", "set 4", "kd 3", "set 4", "del"]))
@@ -1156,6 +1160,12 @@ def run_impl(case):
                 else:
                     expected, check_legacy = real_change(eff_mode, slot_before, dobj, tags)
                     old_spec, new_spec = slot_before, dobj
+                    if any(dobj is pool.objs[i] for i in pool.veto):
+                        # the value reported as new — the default — is a vetoing HasTraits object (a subclass-overridden
+                        # default that the validator maps to it): vetoing values are outside the exactly-once clause,
+                        # as for assignments
+                        tags.add("veto-value")
+                        expected = None
                 if exc is not None:
                     hits.append(_hit("delete-raised", "del raised %s" % A.show_exc(exc)))
             elif k == "get":
